@@ -477,31 +477,42 @@ structure Input where
 
 def totalVotes (votes : Profile) : Rat := (votes.map (·.2)).sum
 
-def initState (E : Engine) (inp : Input) (ds : List Draw) : Except Err St := do
-  let (a, ds') ← initialAllocation E inp.votes ds
-  pure { alloc := a, shown := a, seats := inp.prev, byQuota := 0, final := false, draws := ds' }
+def initState (E : Engine) (inp : Input) (ds : List Draw) : Except Err St :=
+  match initialAllocation E inp.votes ds with
+  | .error e => .error e
+  | .ok (a, ds') =>
+    .ok { alloc := a, shown := a, seats := inp.prev, byQuota := 0, final := false, draws := ds' }
+
+/-- the loop state after a count that returned `out` -/
+def advance (st : St) (out : CountOut) (ds' : List Draw) : St :=
+  { alloc := out.alloc, shown := st.alloc, seats := seatsAdd st.seats out.elected,
+    byQuota := st.byQuota + (if out.shortcut then 0 else sumSeats out.elected),
+    final := out.shortcut, draws := ds' }
+
+/-- `not newly_elected and new_allocation == allocation` (L257): without election the allocation is
+    returned unchanged exactly when nothing was eliminated (a removed key makes the dicts differ); the
+    `{}` of the shortcut equals the allocation only if that is empty as well -/
+def noProgress (st : St) (out : CountOut) : Bool :=
+  decide (out.elected = []) && (if out.shortcut then decide (st.alloc = []) else decide (out.eliminated = []))
 
 /-- one iteration of the loop L242-261; `none` = `break` -/
 def countStep (E : Engine) (cfg : Cfg) (inp : Input) (st : St) : Except Err (Option St) :=
   if sumSeats st.seats = inp.nSeats then .ok none
-  else do
-    let (out, ds') ← nextCount E cfg st.alloc inp.nSeats (totalVotes inp.votes) st.seats inp.maxS st.draws
-    -- `not newly_elected and new_allocation == allocation`: without election the allocation is returned
-    -- unchanged exactly when nothing was eliminated (a removed key makes the dicts differ); the `{}` of
-    -- the shortcut equals the allocation only if that is empty as well
-    if out.elected = [] ∧ (if out.shortcut then st.alloc = [] else out.eliminated = []) then
-      .error .votingSystemError
-    else pure (some { alloc := out.alloc, shown := st.alloc, seats := seatsAdd st.seats out.elected,
-                      byQuota := st.byQuota + (if out.shortcut then 0 else sumSeats out.elected),
-                      final := out.shortcut, draws := ds' })
+  else
+    match nextCount E cfg st.alloc inp.nSeats (totalVotes inp.votes) st.seats inp.maxS st.draws with
+    | .error e => .error e
+    | .ok (out, ds') =>
+      if noProgress st out then .error .votingSystemError
+      else .ok (some (advance st out ds'))
 
 /-- at most `k` counts (the `for count_i in range(count_number)` loop) -/
 def runCounts (E : Engine) (cfg : Cfg) (inp : Input) : Nat → St → Except Err St
   | 0, st => .ok st
-  | k + 1, st => do
-    match ← countStep E cfg inp st with
-    | none => pure st
-    | some st' => runCounts E cfg inp k st'
+  | k + 1, st =>
+    match countStep E cfg inp st with
+    | .error e => .error e
+    | .ok none => .ok st
+    | .ok (some st') => runCounts E cfg inp k st'
 
 /-- `TransferableVoteDistributor.nth_count` (L223-262): (totals of `allocation`, seats) -/
 def nthCount (E : Engine) (cfg : Cfg) (inp : Input) (k : Nat) (ds : List Draw) :
